@@ -8,7 +8,7 @@ use std::io::{Read, Write};
 use std::net::TcpStream;
 use std::time::Duration;
 
-fn exchange(port: u16, host: Option<&str>, target: &str, src: Option<&str>, xff: Option<&str>) -> String {
+fn exchange(port: u16, host: Option<&str>, target: &str, src: Option<&str>, xff: Option<&str>, with_ct: bool) -> String {
     for _ in 0..50 {
         let conn = match src {
             // from a chosen loopback source address (blacklist cases)
@@ -55,11 +55,13 @@ fn exchange(port: u16, host: Option<&str>, target: &str, src: Option<&str>, xff:
             let mut lines = head.split("\r\n");
             let status = lines.next().unwrap_or("").split(' ').nth(1).unwrap_or("?").to_string();
             let mut loc = None;
+            let mut ct = None;
             let mut cl = 0usize;
             for l in lines {
                 if let Some((n, v)) = l.split_once(':') {
                     match n.to_ascii_lowercase().as_str() {
                         "location" => loc = Some(v.trim().to_string()),
+                        "content-type" => ct = Some(v.trim().to_string()),
                         "content-length" => cl = v.trim().parse().unwrap_or(0),
                         _ => {}
                     }
@@ -68,6 +70,7 @@ fn exchange(port: u16, host: Option<&str>, target: &str, src: Option<&str>, xff:
             let body = &body.as_bytes()[..cl.min(body.len())];
             return match loc {
                 Some(l) => format!("{}:loc:{}", status, hex(l.as_bytes())),
+                None if with_ct => format!("{}:body:{}:ct:{}", status, hex(body), ct.map(|c| hex(c.as_bytes())).unwrap_or_else(|| "none".into())),
                 None => format!("{}:body:{}", status, hex(body)),
             };
         }
@@ -81,12 +84,17 @@ pub fn dispatch(name: &str, args: &[&str]) -> Option<String> {
         // srv <conf text hex, @FIX@ = fixture directory> <fixtures name:contenthex,...|-> <requests host|-:target,...>
         "srv" => {
             let root = std::env::var("HV_ROOT").unwrap_or_else(|_| "/verif".to_string());
-            let fix = format!("{}/work/c04srv/p{}", root, std::process::id());
+            static CASE: std::sync::atomic::AtomicUsize = std::sync::atomic::AtomicUsize::new(0);
+            let fix = format!("{}/work/c04srv/p{}_{}", root, std::process::id(), CASE.fetch_add(1, std::sync::atomic::Ordering::Relaxed));
             std::fs::create_dir_all(&fix).unwrap();
             if args[1] != "-" {
                 for f in args[1].split(',') {
                     let (n, c) = f.split_once(':').unwrap();
                     let path = format!("{}/{}", fix, unhex_str(n));
+                    if c == "d" {
+                        std::fs::create_dir_all(&path).unwrap();
+                        continue;
+                    }
                     if let Some(p) = std::path::Path::new(&path).parent() {
                         std::fs::create_dir_all(p).unwrap();
                     }
@@ -133,12 +141,13 @@ pub fn dispatch(name: &str, args: &[&str]) -> Option<String> {
             }
             let mut out = Vec::new();
             for r in args[2].split(',') {
-                // host|-:target[:source ip[:X-Forwarded-For]]
+                // host|-:target[:source ip|-[:X-Forwarded-For|-[:ct]]]
                 let f: Vec<&str> = r.split(':').collect();
                 let host = if f[0] == "-" { None } else { Some(unhex_str(f[0])) };
                 let src = f.get(2).filter(|x| **x != "-").map(|x| unhex_str(x));
                 let xff = f.get(3).filter(|x| **x != "-").map(|x| unhex_str(x));
-                out.push(exchange(port, host.as_deref(), &unhex_str(f[1]), src.as_deref(), xff.as_deref()));
+                let with_ct = f.get(4).map(|x| *x == "ct").unwrap_or(false);
+                out.push(exchange(port, host.as_deref(), &unhex_str(f[1]), src.as_deref(), xff.as_deref(), with_ct));
             }
             Some(out.join(","))
         }
